@@ -82,7 +82,18 @@ func raceCheck(args []string) {
 			name string
 			f    func(g int) []byte
 		}
+		// a message shared by all goroutines that has spare capacity behind it (a prefix of a larger buffer)
+		_, msgSpare := carve(r, r.msg(), 2, 9, 3)
 		gscens := []gscen{
+			{"HashToScalar/HashToGroup/EncodeToGroup mixed on one shared message with spare capacity", func(g int) []byte {
+				switch g % 3 {
+				case 0:
+					return secp.HashToScalar(msgSpare, dst).Encode()
+				case 1:
+					return secp.HashToGroup(msgSpare, dst).Encode()
+				}
+				return secp.EncodeToGroup(msgSpare, dst).Encode()
+			}},
 			{"HashToScalar(per-goroutine oversize dst)", func(g int) []byte { return secp.HashToScalar(msg, dstLongs[g]).Encode() }},
 			{"HashToGroup(per-goroutine oversize dst)", func(g int) []byte { return secp.HashToGroup(msgs[g], dstLongs[g]).Encode() }},
 			{"EncodeToGroup(per-goroutine dst)", func(g int) []byte { return secp.EncodeToGroup(msgs[g], dsts[g]).Encode() }},
